@@ -79,7 +79,7 @@ fn exact_pow10_bits(fmt: Fmt, e: u32) -> u64 {
     bits
 }
 
-fn check_cfg(cfg: &'static Cfg, stats: &mut Stats) -> Result<(), Failure> {
+pub fn check_cfg(cfg: &'static Cfg, stats: &mut Stats) -> Result<(), Failure> {
     let t = (cfg.tables)();
     let mut n = 0u64;
     let tag = |s: &str| format!("{}:{}", if cfg.compact { "compact" } else { "tables" }, s);
@@ -228,6 +228,28 @@ fn check_cfg(cfg: &'static Cfg, stats: &mut Stats) -> Result<(), Failure> {
         n += 1;
     }
     stats.add("10^1..10^19 via parse_mantissa chunks", 19);
+    for k in 1..=19usize {
+        // the digit limit falls k digits into the second chunk and a non-zero digit follows: the last
+        // temporary is flushed with 10^k from the "limit reached" exit (k = 19: chunk and limit coincide,
+        // the only consumer of 10^19), then the truncated tail rounds up by one more digit
+        let mut digits = vec![b'3'];
+        digits.extend(std::iter::repeat(b'0').take(18));
+        digits.extend(std::iter::repeat(b'6').take(k));
+        let max_digits = digits.len();
+        let mut input = digits.clone();
+        input.extend(b"0005");
+        for (int, frac) in [(&input[..], &b""[..]), (&input[..7], &input[7..])] {
+            let (limbs, count) = (cfg.slow_parse_mantissa)(int, frac, max_digits);
+            let mut want_digits: Vec<u8> = digits.iter().map(|c| c - b'0').collect();
+            want_digits.push(1);
+            let want = Nat::from_digits(&want_digits);
+            if Nat::from_limbs(&limbs) != want || count != max_digits + 1 {
+                return Err(fail(cfg, "int_pow_fast_path(k, Ten) via parse_mantissa at the digit limit", k as i64, want.to_string(), Nat::from_limbs(&limbs).to_string()));
+            }
+            n += 1;
+        }
+    }
+    stats.add("10^1..10^19 via parse_mantissa at the digit limit (integer and split)", 38);
     for s in 1..=15i32 {
         let want = oracle::expected(Fmt::F64, b"3", b"", (22 + s) as i64);
         let got = (cfg.fast64)(3, 22 + s, false);
@@ -251,6 +273,37 @@ fn check_cfg(cfg: &'static Cfg, stats: &mut Stats) -> Result<(), Failure> {
     }
     stats.sample(cfg.name, || json!({"config": cfg.name, "entries_checked": n,
         "example": if cfg.compact { json!({"BASE10_POWERS.large[0] (10^-350)": format!("{:?}", t.bell_large[0])}) } else { json!({"POWER_OF_FIVE_128[0] (5^-342)": format!("(0x{:016x}, 0x{:016x})", t.pow5_128[0].0, t.pow5_128[0].1)}) }}));
+    Ok(())
+}
+
+/// The limb-width dependent constants only (used by the 32-bit-limb stage under Miri, where the full
+/// enumeration would take the interpreter tens of minutes): the large power of five in the limb width
+/// the crate was compiled for, powers of five through `bigint::pow` across the small-step / 27 / 135
+/// boundaries, and powers of ten through `parse_mantissa`'s chunking (9-digit chunks on 32-bit limbs).
+pub fn check_limb_dependent(cfg: &'static Cfg, stats: &mut Stats) -> Result<(), Failure> {
+    let t = (cfg.tables)();
+    if !cfg.compact && (t.large_pow5_step != 135 || Nat::from_limbs(&t.large_pow5) != *pow5().get(135)) {
+        return Err(fail(cfg, "LARGE_POW5", 0, pow5().get(135).to_string(), Nat::from_limbs(&t.large_pow5).to_string()));
+    }
+    let mut n = 1u64;
+    for e in [0u32, 1, 12, 13, 14, 26, 27, 28, 40, 134, 135, 136, 162, 270, 271, 300] {
+        let want = pow5().get(e as usize);
+        match catch(|| (cfg.big_apply)(&[1], &BigOp::Pow5(e))) {
+            Ok(BigOut::Ok { limbs, .. }) if Nat::from_limbs(&limbs) == *want => {}
+            other => return Err(fail(cfg, "bigint::pow(1, 5^e)", e as i64, want.to_string(), format!("{:?}", other))),
+        }
+        n += 1;
+    }
+    for len in 1..=40usize {
+        let digits: Vec<u8> = (0..len).map(|i| b'1' + ((i * 7 + len) % 9) as u8).collect();
+        let (limbs, count) = (cfg.slow_parse_mantissa)(&digits, b"", 800);
+        let want = Nat::from_digits(&digits.iter().map(|c| c - b'0').collect::<Vec<_>>());
+        if Nat::from_limbs(&limbs) != want || count != len {
+            return Err(fail(cfg, "parse_mantissa chunking", len as i64, want.to_string(), Nat::from_limbs(&limbs).to_string()));
+        }
+        n += 1;
+    }
+    stats.evaluations += n;
     Ok(())
 }
 
